@@ -32,6 +32,10 @@ def cases(draw, need_percolation=False, max_mobile=8):
     if not jn:
         closest = 0
         sl, jn, cut = nw.network(crys, chem, k, closest)
+    slperm = len(sl) > 1 and draw(st.integers(0, 3)) == 0
+    if slperm:
+        # the site list is an input: Wyckoff sets (and their members) in the caller's own order instead of Crystal.sitelist's
+        sl = [list(reversed(w)) for w in reversed(sl)]
     inv = nw.invmap(sl)
     pre, ene = draw(dt.site_data(len(sl)))
     preT, eneT = draw(dt.trans_data(jn, inv, ene))
@@ -39,13 +43,18 @@ def cases(draw, need_percolation=False, max_mobile=8):
     ls = draw(st.sampled_from([0] * 16 + [-7, -8, -9, -10, -14, 9]))
     if ls:
         preT = [float("%.5e" % (x * 10. ** ls)) for x in preT]
-    return {"recipe": rec, "chem": chem, "k": k, "closest": closest, "pre": pre, "ene": ene, "preT": preT, "eneT": eneT}
+    out = {"recipe": rec, "chem": chem, "k": k, "closest": closest, "pre": pre, "ene": ene, "preT": preT, "eneT": eneT}
+    if slperm:
+        out["slperm"] = True
+    return out
 
 
 def setup(case):
     from onsager import OnsagerCalc
     crys = cs.build(case["recipe"])
     sl, jn, cut = nw.network(crys, case["chem"], case["k"], case["closest"])
+    if case.get("slperm"):
+        sl = [list(reversed(w)) for w in reversed(sl)]
     return crys, sl, jn
 
 
@@ -54,7 +63,7 @@ _diff = {}
 
 def diffuser(case):
     from onsager import OnsagerCalc
-    key = canon([case["recipe"]["lattice"], case["recipe"]["basis"], case["chem"], case["k"], case["closest"]])
+    key = canon([case["recipe"]["lattice"], case["recipe"]["basis"], case["chem"], case["k"], case["closest"], bool(case.get("slperm"))])
     if key not in _diff:
         if len(_diff) > 200:
             _diff.clear()
